@@ -123,9 +123,9 @@ class Bernoulli(DiscreteRandomVariable):
         self.p = p
 
     def cdf(self, x):
-        if x == 1: return 1
-        if x == 0: return 1 - self.p
-        else: return 0
+        if x < 0: return 0
+        if x < 1: return 1 - self.p
+        return 1
 
     def pmf(self, x):
         if x == 1: return self.p
